@@ -181,6 +181,15 @@ def swarmInit (witness : List (List F)) (sw : Swarm F) : Swarm F :=
   let s1 := pbestInit (velInit witness sw)
   { s1 with gbest := gbestUpd s1.gbest s1.xs }
 
+/-- Executable form of "the global best is a personal best with the smallest objective value"
+(`Props.C18.GbestIsMinPbest`); an empty swarm has no global best. -/
+def partBEq [BEq F] (a b : Part F) : Bool := a.pos == b.pos && a.obj == b.obj && a.ev == b.ev
+
+def gbestHolds [BEq F] (pbest : List (Part F)) (gbest : Option (Part F)) : Bool :=
+  match gbest with
+  | none => pbest.isEmpty
+  | some g => pbest.any (partBEq g) && pbest.all (fun p => !(decide (p.obj < g.obj)))
+
 /-- One pass of the PSO loop body as far as the swarm state is concerned:
 velocity/position update, evaluation, (inertia-weight update,) personal bests, global best.
 (`Saturation` is folded into `repair`.) -/
